@@ -125,6 +125,16 @@ func genTrans(rng *rand.Rand, marker uint32, forceStorable, bg bool) trAnswer {
 			return trAnswer{Kind: "none"}
 		}
 	}
+	if s.Rcode == dns.RcodeNameError || s.Rcode == dns.RcodeServerFailure {
+		// a negative reply with a zero-TTL record is the one input for which the statement
+		// leaves storing open (see admission); the transition chains need answers whose fate
+		// is decided, so negatives here carry TTLs >= 1
+		for i := range s.RRs {
+			if s.RRs[i].TTL == 0 {
+				s.RRs[i].TTL = 1 + uint32(rng.Intn(60))
+			}
+		}
+	}
 	return trAnswer{Kind: "spec", Spec: s}
 }
 
